@@ -13,6 +13,7 @@ import (
 	"path/filepath"
 	"regexp"
 	"runtime"
+	"runtime/debug"
 	"sort"
 	"strconv"
 	"strings"
@@ -188,6 +189,18 @@ func runStat(args []string) (stdout, stderr string, err error) {
 	done := make(chan res, 1)
 	go func() {
 		var o, e bytes.Buffer
+		defer func() {
+			// a panic on the invocation's own goroutine is an outcome of the invocation
+			// (one on a goroutine it started still kills the process; the driver then
+			// re-runs the worker with case tracing to find the case)
+			if p := recover(); p != nil {
+				st := string(debug.Stack())
+				if len(st) > 2500 {
+					st = st[:2500]
+				}
+				done <- res{o.String(), e.String(), fmt.Errorf("panic: %v\n%s", p, st)}
+			}
+		}()
 		err := benchstat(&o, &e, args)
 		done <- res{o.String(), e.String(), err}
 	}()
